@@ -10,6 +10,7 @@ import sys
 import time
 
 V = os.path.dirname(os.path.dirname(os.path.abspath(__file__)))
+REPO = os.environ.get("XS_REPO", "/repo")  # selftest/sandbox_seeds.sh runs this on a scratch copy
 
 
 def sh(cmd, **kw):
@@ -18,7 +19,7 @@ def sh(cmd, **kw):
 
 def main():
     only = sys.argv[1:]
-    if sh("git -C /repo status --porcelain --untracked-files=no").stdout.strip():
+    if sh(f"git -C {REPO} status --porcelain --untracked-files=no").stdout.strip():
         print("/repo is not clean")
         return 2
     seeds = sorted(d for d in os.listdir(os.path.join(V, "seeded")) if os.path.isdir(os.path.join(V, "seeded", d)))
@@ -29,7 +30,7 @@ def main():
         meta = json.load(open(os.path.join(V, "seeded", s, "meta.json")))
         props = meta.get("caught_by") or [meta["property"]]
         patch = os.path.join(V, "seeded", s, "patch.diff")
-        r = sh(f"git -C /repo apply {patch}")
+        r = sh(f"git -C {REPO} apply {patch}")
         if r.returncode != 0:
             out.append({"seed": s, "applied": False, "err": r.stderr[-300:]})
             print(s, "DOES NOT APPLY")
@@ -41,7 +42,7 @@ def main():
                 c = sh(f"python3 tools/check.py {p} --quick", cwd=V)
                 res[p] = {"exit": c.returncode, "violation_line": "VIOLATION property=" + p in c.stdout, "wall_s": round(time.time() - t0)}
         finally:
-            sh("git -C /repo checkout -- .")
+            sh(f"git -C {REPO} checkout -- .")
         ok = any(v["exit"] == 1 and v["violation_line"] for v in res.values())
         out.append({"seed": s, "applied": True, "caught": ok, "checks": res})
         print(s, "caught" if ok else "MISSED", res, flush=True)
